@@ -82,12 +82,14 @@ def gen_enumerated(rng, outcomes, v2):
         dps = [g.dp() for _ in range(rng.randint(1, 3))]
         steps.append({'dps': dps, 'by': dps[-1]['run'], 'gap': rng.choice([30, 31, 45, 600]),
                       'script': point_script(rng, o),
-                      'statuses': {'ok': rng.choice([200, 200, 201, 202, 204])},
+                      'statuses': {'ok': rng.choice([200, 200, 201, 202, 204]),
+                                   'body': rng.choice(sorted(D.ERROR_BODIES)) if rng.random() < 0.6 else ''},
                       'during': [g.dp() for _ in range(rng.randint(1, 2))] if rng.random() < 0.3 else []})
     last = [g.dp() for _ in range(rng.randint(0 if steps else 1, 2))]
     steps.append({'dps': last, 'by': None, 'gap': 0, 'script': []})
     return {'v2': v2, 'n_runs': n_runs, 'prior': None, 'start': stamp(rng), 'load_gap': 0, 'load_script': ['ok'],
             'branch': rng.choice([None, 'verif/feature-x', 'v1.2.3']),
+            'ui': rng.choice([None, {'verbose': False, 'debug': False}, {'verbose': True, 'debug': True}]),
             'steps': steps, 'close_script': point_script(rng, outcomes[-1])}
 
 
@@ -142,6 +144,10 @@ def gen_random(rng, rich=False, max_points=5):
             statuses = {'4xx': rng.choice([400, 401, 404, 422, 499]), '5xx': rng.choice([500, 502, 503, 599, 399, 301])}
         if rng.random() < 0.4:
             statuses['ok'] = rng.choice([201, 202, 204, 200])     # every 2xx is an acknowledgement
+        if rng.random() < 0.5:
+            statuses['body'] = rng.choice(sorted(D.ERROR_BODIES))  # what the server says in an error response
+        if rng.random() < 0.15:
+            statuses['reason'] = rng.choice(sorted(D.ERROR_REASONS))
         steps.append({'dps': dps, 'by': dps[-1]['run'] if dps else rng.randrange(n_runs),
                       'gap': rng.choice([0, 1, 29, 30, 30, 31, 60, 600]), 'script': gen_script(rng),
                       'statuses': statuses,
@@ -149,6 +155,8 @@ def gen_random(rng, rich=False, max_points=5):
     steps.append({'dps': [g.dp(rich=rich) for _ in range(rng.choice([0, 1, 2]))], 'by': None, 'gap': 0, 'script': []})
     return {'v2': v2, 'n_runs': n_runs, 'prior': prior, 'start': stamp(rng),
             'branch': rng.choice([None, 'verif/feature-x', 'release-2']),
+            'ui': rng.choice([None, {'verbose': False, 'debug': False}, {'verbose': True, 'debug': False},
+                              {'verbose': True, 'debug': True}]),
             'load_gap': rng.choice([0, 0, 29, 30, 100]), 'load_script': gen_script(rng),
             'steps': steps, 'close_script': gen_script(rng),
             'close_during': [g.dp(rich=rich)] if rng.random() < 0.1 else [],
@@ -200,6 +208,12 @@ def execute(ck, sc, idx, server=None, refused_port=None):
     fed = []            # (label of the point after which it is pending, dp)
     old_cwd = os.getcwd()
     os.chdir(wd)
+    import contextlib
+    import io
+    ui_out, ui_err = io.StringIO(), io.StringIO()
+    redirect = contextlib.ExitStack()
+    redirect.enter_context(contextlib.redirect_stdout(ui_out))
+    redirect.enter_context(contextlib.redirect_stderr(ui_err))
     try:
         if sc.get('prior'):
             with D.World(sc['v2'], 'prior', sc['prior']['start']):
@@ -223,7 +237,7 @@ def execute(ck, sc, idx, server=None, refused_port=None):
                     w.point['attempts'].append(rec)
                     return real_urlopen(req, *a, **kw)
                 R.urlopen = urlopen
-            s = D.Session(wd, n_runs, data_file, url, branch=sc.get('branch'))
+            s = D.Session(wd, n_runs, data_file, url, branch=sc.get('branch'), real_ui=sc.get('ui'))
             t0 = int(w.clock)
             timeline = []   # what the oracle sees: ('dp', d) | ('point', record)
             crash = None
@@ -288,6 +302,7 @@ def execute(ck, sc, idx, server=None, refused_port=None):
             underrun = w.script_underrun
             options_calls = w.options_calls
     finally:
+        redirect.close()
         os.chdir(old_cwd)
     start_expected = sc['prior']['start'] if sc.get('prior') and sc['prior']['dps'] else sc['start']
     op = {'op': 'c17.session', 'v2': sc['v2'], 't0': t0, 'start': start_expected, 'env': env_expected,
@@ -486,6 +501,11 @@ def check_batch(ck, scenarios, server=None, refused_port=None, tag=''):
             ck.count('v2:null-padding')
         if sc.get('prior'):
             ck.count('reloaded-data')
+        if sc.get('ui'):
+            ck.count('real rebench.ui.UI in the transmission path')
+        for st in sc['steps']:
+            if (st.get('statuses') or {}).get('body'):
+                ck.count('error response with a body: %s' % st['statuses']['body'])
         n_fl = sum(1 for k, x in book['timeline'] if k == 'dp' and x.get('in_flight'))
         if n_fl:
             ck.count('data points handed over while a request is in flight', n_fl)
